@@ -190,6 +190,9 @@ func (v *Voucher) OwnerPublicKey() (crypto.PublicKey, error) {
 	if len(v.Entries) == 0 {
 		return v.Header.Val.ManufacturerKey.Public()
 	}
+	if v.Entries[len(v.Entries)-1].Payload == nil {
+		return nil, errors.New("last voucher entry has no payload")
+	}
 	return v.Entries[len(v.Entries)-1].Payload.Val.PublicKey.Public()
 }
 
@@ -294,6 +297,13 @@ func (v *Voucher) VerifyEntries() error {
 
 	// Header info is the concatenation of GUID and DeviceInfo
 	headerInfo := append(v.Header.Val.GUID[:], []byte(v.Header.Val.DeviceInfo)...)
+
+	// Entry payloads are never transported separately
+	for i, entry := range v.Entries {
+		if entry.Payload == nil {
+			return fmt.Errorf("voucher entry %d has no payload", i)
+		}
+	}
 
 	// The algorithm used for hashing entries should always match the one used
 	// during the very first extension
